@@ -53,6 +53,9 @@ var entryRe = regexp.MustCompile(`(?m)^(?:(?:  )*└─ )?Wraps: \((\d+)\)|^\((1
 
 func runC13(c *core.Ctx) {
 	g := gen.New(c.R)
+	if c.Case%50 == 0 {
+		opErrArrowProbeC13(c, g)
+	}
 	var t *gen.Node
 	if c.Case < gen.SweepSize() {
 		t = g.Sweep(c.Case)
@@ -276,7 +279,7 @@ func runC13(c *core.Ctx) {
 	check("hop1", []sim.Proc{{}}, true)
 	check("hop2", []sim.Proc{{}, {}}, true)
 	check("unknowing-receiver", []sim.Proc{{Forget: keys}}, false)
-	check("unknowing-then-knowing", []sim.Proc{{Forget: keys}, {}}, true)
+	check("unknowing-then-knowing", []sim.Proc{{Forget: keys, NoProto: c.Case%2 == 1}, {}}, true)
 	c.Sample(sample(t, map[string]interface{}{"multi_cause_nodes": nMulti, "visible_layers": len(vis), "refs": len(refs)}))
 	_ = reflect.TypeOf
 }
@@ -320,4 +323,30 @@ func joinNilChecks(c *core.Ctx) {
 		c.Violate("join-text", "Join's Error() is not the branch messages joined by newlines", fmt.Sprintf("%q", j.Error()))
 	}
 	c.Count("join-nil-checks", 1)
+}
+
+// opErrArrowProbeC13: see opErrBothTrees (known finding): Join's Error() renders its branches
+// with the library's formatter, which prints such an OpError with a spaced arrow.
+func opErrArrowProbeC13(c *core.Ctx, g *gen.Gen) {
+	leaf := g.Make("goerr", nil, nil)
+	ob := g.Make("operrboth", []*gen.Node{g.Make("goerr", nil, nil)}, nil)
+	for _, kind := range []string{"join", "joinbare"} {
+		t := g.Make(kind, []*gen.Node{ob, leaf}, nil)
+		e, _, ok := safeBuild(c, t)
+		if !ok {
+			continue
+		}
+		if p := core.Try(func() {
+			var parts []string
+			for _, b := range errbase.UnwrapMulti(errors.UnwrapAll(e)) {
+				parts = append(parts, b.Error())
+			}
+			c.Count("operrboth-joins", 1)
+			if got, want := e.Error(), strings.Join(parts, "\n"); got != want {
+				c.Violate("join-text/"+arrowClass(got, want), "Join's Error() is not the branch messages joined by newlines", fmt.Sprintf("%s\n%q vs %q", t, got, want))
+			}
+		}); p != nil {
+			c.Violate("panic/operrboth", "panicked", fmt.Sprintf("%s\n%v", t, p))
+		}
+	}
 }
